@@ -376,7 +376,10 @@ def safetensors(chk):
     else:
         # where do the two dicts get their entries?  (a) a loop storing into them (b) comprehensions
         verdict = None
-        loops = [n for n in ast.walk(save) if isinstance(n, ast.For) and sdn in U(n.iter)]
+        # a local that holds the items of the state_dict (`items = list(state_dict.items())`) iterates over the same pairs
+        sd_alias = {U(a.targets[0]) for a in ast.walk(save) if isinstance(a, ast.Assign) and len(a.targets) == 1 and isinstance(a.targets[0], ast.Name)
+                    and U(a.value) in (f"list({sdn}.items())", f"tuple({sdn}.items())", f"{sdn}.items()")}
+        loops = [n for n in ast.walk(save) if isinstance(n, ast.For) and (sdn in U(n.iter) or U(n.iter) in sd_alias)]
         helper_loops = []
         if not loops:
             for n in ast.walk(save):
